@@ -189,7 +189,7 @@ def array_scenario(case, d):
             legit.append(new.copy())
         f = lambda: darr.truncate_array(a, op['index'])
     elif k == 'metaset':
-        f = lambda: a.metadata.update(op['value'])
+        f = lambda: a.metadata.update(op['value'], **op.get('kw', {}))
     elif k == 'metaclear':
         f = lambda: [a.metadata.pop(key) for key in list(a.metadata.keys())]
     else:
@@ -273,7 +273,7 @@ def ragged_scenario(case, d):
             legit.append(new)
         f = lambda: darr.truncate_raggedarray(ra, op['index'])
     elif k == 'metaset':
-        f = lambda: ra.metadata.update(op['value'])
+        f = lambda: ra.metadata.update(op['value'], **op.get('kw', {}))
     elif k == 'metaclear':
         f = lambda: [ra.metadata.pop(key) for key in list(ra.metadata.keys())]
     else:
